@@ -18,6 +18,9 @@ func init() {
 
 // canonExpr renders v as an expression over parameters and constants, with the values in k printed as "k"
 // (the index of the view whose duration is being computed). Commutative operators have sorted operands.
+// canonParam binds parameters of helpers under expansion to the rendered argument.
+var canonParam = map[*ssa.Parameter]string{}
+
 func canonExpr(v ssa.Value, k map[ssa.Value]bool, depth int) string {
 	if k[v] {
 		return "k"
@@ -29,6 +32,9 @@ func canonExpr(v ssa.Value, k map[ssa.Value]bool, depth int) string {
 	case *ssa.Const:
 		return x.Value.ExactString()
 	case *ssa.Parameter:
+		if str, ok := canonParam[x]; ok {
+			return str
+		}
 		if a, ok := ssau.ParamSubst[x]; ok {
 			return canonExpr(a, k, depth+1)
 		}
@@ -61,6 +67,21 @@ func canonExpr(v ssa.Value, k map[ssa.Value]bool, depth int) string {
 					flat(bo.Y)
 					return
 				}
+				// the result of a one-block helper that is itself such a sum/product: flatten through it
+				if cl, ok := v.(*ssa.Call); ok && !k[v] {
+					if _, ok := expandHelper(cl, k, depth, func(r ssa.Value) string {
+						if bo, ok := r.(*ssa.BinOp); ok && bo.Op == x.Op {
+							flat(r)
+							return "flattened"
+						}
+						return ""
+					}); ok {
+						if len(terms) > 0 && flattenedLast {
+							flattenedLast = false
+							return
+						}
+					}
+				}
 				terms = append(terms, canonExpr(v, k, depth+1))
 			}
 			flat(x)
@@ -70,12 +91,8 @@ func canonExpr(v ssa.Value, k map[ssa.Value]bool, depth int) string {
 		return "(" + a + x.Op.String() + b + ")"
 	case *ssa.Call:
 		// a one-block helper of the repository with a single result: expand it with its parameters bound
-		if h := x.Call.StaticCallee(); h != nil && len(h.Blocks) == 1 && h.Pkg != nil && strings.HasPrefix(h.Pkg.Pkg.Path(), "github.com/elastos/Elastos.ELA") && h != x.Parent() {
-			if ret, ok := h.Blocks[0].Instrs[len(h.Blocks[0].Instrs)-1].(*ssa.Return); ok && len(ret.Results) == 1 {
-				out := ""
-				ssau.WithParamSubst(x, func() { out = canonExpr(ret.Results[0], k, depth+1) })
-				return out
-			}
+		if out, ok := expandHelper(x, k, depth, func(r ssa.Value) string { return canonExpr(r, k, depth+1) }); ok {
+			return out
 		}
 		name := x.Call.Value.String()
 		if f := x.Call.StaticCallee(); f != nil {
@@ -293,7 +310,7 @@ func runC26(c *Ctx) {
 			}
 			cl, isCall := q.X.(*ssa.Call)
 			ok = q.X == r.X && isCall && methodCallNamed(cl, "Sub") && paramNamed(cl.Call.Args[0], "now") && paramNamed(cl.Call.Args[1], "startTime") &&
-				fieldIs("view", "signTolerance")(q.Y) && fieldIs("view", "signTolerance")(r.Y)
+				(fieldIs("view", "signTolerance")(q.Y) || paramNamed(q.Y, "signTolerance")) && (fieldIs("view", "signTolerance")(r.Y) || paramNamed(r.Y, "signTolerance")) && ssau.Unwrap(q.Y) == ssau.Unwrap(r.Y) || (fieldIs("view", "signTolerance")(q.Y) && fieldIs("view", "signTolerance")(r.Y))
 		}
 		c.R.Check("R-remainder", "calculateOffsetTimeV0|quotient and remainder pair", ok, c.pos(f.Pos()), det)
 		// ... on every return: no exit hands back a remainder that forgets the elapsed time (a constant)
@@ -314,7 +331,7 @@ func runC26(c *Ctx) {
 		if f == nil {
 			continue
 		}
-		calls := ssau.CallsIn(f, callPred(R{pkg, "view", m.calc}))
+		calls := ssau.CallsIn(f, callPred(R{pkg, "view", m.calc}, R{pkg, "", m.calc}))
 		if len(calls) != 1 {
 			c.R.Check("R-carry", m.fn+"|evaluates the schedule once", false, c.pos(f.Pos()), fmt.Sprintf("%d call(s) of %s", len(calls), m.calc))
 			continue
@@ -322,10 +339,19 @@ func runC26(c *Ctx) {
 		call := calls[0]
 		a := call.Common().Args
 		// args: recv, [offset], startTime, now
+		// the start time and now are identified by role, wherever they sit in the argument list
+		startOK, nowOK := false, false
+		for _, x := range a {
+			if fieldIs("view", "viewStartTime")(x) {
+				startOK = true
+			}
+			if paramNamed(x, "now") {
+				nowOK = true
+			}
+		}
 		si := 1 + boolInt(m.calc != "calculateOffsetTimeV0")
-		nowIdx := si + 1
-		startOK := len(a) > nowIdx && fieldIs("view", "viewStartTime")(a[si])
-		c.R.Check("R-carry", m.fn+"|schedule evaluated on (viewStartTime, now)", startOK && paramNamed(a[nowIdx], "now"), c.posOf(call), "the elapsed time is measured from the carried view start to now")
+		_ = si
+		c.R.Check("R-carry", m.fn+"|schedule evaluated on (viewStartTime, now)", startOK && nowOK, c.posOf(call), "the elapsed time is measured from the carried view start to now")
 		// stores
 		var startStores, offStores []*ssa.Store
 		for _, b := range f.Blocks {
@@ -396,4 +422,49 @@ func boolInt(b bool) int {
 		return 1
 	}
 	return 0
+}
+
+// flattenedLast is set by expandHelper's callback protocol in canonExpr's flattening (see there).
+var flattenedLast bool
+
+// expandHelper renders the single result of a one-block repository helper called at x with its parameters bound to
+// the rendered arguments; render receives the returned value. ok=false when x is not such a call or render
+// declines (returns "").
+func expandHelper(x *ssa.Call, k map[ssa.Value]bool, depth int, render func(ssa.Value) string) (string, bool) {
+	h := x.Call.StaticCallee()
+	if h == nil || len(h.Blocks) != 1 || h.Pkg == nil || !strings.HasPrefix(h.Pkg.Pkg.Path(), "github.com/elastos/Elastos.ELA") || h == x.Parent() {
+		return "", false
+	}
+	ret, ok := h.Blocks[0].Instrs[len(h.Blocks[0].Instrs)-1].(*ssa.Return)
+	if !ok || len(ret.Results) != 1 {
+		return "", false
+	}
+	saved := map[*ssa.Parameter]string{}
+	had := map[*ssa.Parameter]bool{}
+	var strs []string
+	for _, a := range x.Call.Args {
+		strs = append(strs, canonExpr(a, k, depth+1))
+	}
+	for i, prm := range h.Params {
+		if i < len(strs) {
+			saved[prm] = canonParam[prm]
+			_, had[prm] = canonParam[prm]
+			canonParam[prm] = strs[i]
+		}
+	}
+	out := render(ret.Results[0])
+	for prm := range saved {
+		if had[prm] {
+			canonParam[prm] = saved[prm]
+		} else {
+			delete(canonParam, prm)
+		}
+	}
+	if out == "" {
+		return "", false
+	}
+	if out == "flattened" {
+		flattenedLast = true
+	}
+	return out, true
 }
